@@ -60,6 +60,14 @@ fn cnf_comments_between(k: usize) -> String {
         format!("c comment {}\n", k)
     }
 }
+/// three clauses, then nothing but blank lines (empty, indented, CRLF) - no line is long, the run is
+fn cnf_blank_run(k: usize) -> String {
+    match k {
+        0 => "p cnf 100 0\n".into(),
+        1 | 2 | 3 => cnf_clause(k),
+        _ => ["\n", "  \n", "\r\n", "\t\n"][k % 4].into(),
+    }
+}
 fn cnf_comment_block(k: usize) -> String {
     if k % 5000 == 0 {
         cnf_clause(k)
@@ -154,6 +162,7 @@ const STREAMS: &[(&str, &str, fn(usize) -> String)] = &[
     ("cnf", "clauses and comment lines alternating", cnf_comments_between),
     ("cnf", "blocks of 5000 consecutive comment lines", cnf_comment_block),
     ("cnf", "header declaring 2000000000 variables, ordinary clauses", cnf_loose_header),
+    ("cnf", "three clauses, then an unbroken run of blank lines", cnf_blank_run),
     ("wcnf", "clauses", wcnf_clause),
     ("gcnf", "clauses", gcnf_clause),
     ("btor2", "input nodes with symbols and comments", btor2_nodes),
